@@ -13,6 +13,7 @@ great-circle midpoint, and the tile areas (spherical trigonometry on floats).
 -/
 import ToastyVerif.Model.Toast
 import ToastyVerif.Props.C13
+import ToastyVerif.Gen.Plumbing
 
 namespace C04
 open Toast ToastBase
@@ -736,5 +737,9 @@ example : (tileAt (· + ·) vtxN false 2 1 3).q = ⟨48, 33, 32, 34⟩ ∧
 /-- the enumeration of depth 2 yields 16 + 4 tiles, the bottom-only one 16 -/
 example : (generate (· + ·) vtxN true (fun _ => true) false 2).length = 20 ∧
     (generate (· + ·) vtxN true (fun _ => true) true 2).length = 16 := by decide
+
+/-- **entry_points**: the call sites through which this property's workflows reach the modelled functions have, in the source as
+it is now, the argument plumbing the model assumes (facts re-extracted on every run, `Gen/Plumbing.lean`) -/
+theorem entry_points : Gen.Plumbing.pyramid_generator_forwards_coordsys = true ∧ Gen.Plumbing.builder_toast_base_forwards_coordsys = true := by decide
 
 end C04
